@@ -113,7 +113,12 @@ def build() -> Check:
             # treated as "look again now / in a moment" by the suspension helpers)
             from_record = (ts_ is not None and "scheduled_end_timestamp" in ts_.key()) or any(
                 "scheduled_end_timestamp" in str(k) and not str(k).endswith("is None") and not str(k).endswith("is not None") for k, _v in t.pc)
-            if recorded and not from_record and not any(str(k).endswith("scheduled_end_timestamp is None") and v is True for k, v in t.pc) \
+            full_again = ts_ is not None and ("+ seconds" in ts_.key() or "seconds)" in ts_.key()) and "scheduled_end_timestamp" not in ts_.key()
+            if recorded and full_again and not any(str(k).endswith("scheduled_end_timestamp is None") and v is True for k, v in t.pc) \
+                    and not any("isinstance" in str(k) and v is False for k, v in t.pc) and not any("tzinfo is not None" in str(k) and v is False for k, v in t.pc):
+                # (looking at the recorded end and then parking for the full duration all the same is no better than not looking)
+                badw.append((f"a wait found {st} whose record carries its end time parks until {ts_.key()} - its full duration counted from now", t))
+            elif recorded and not from_record and not any(str(k).endswith("scheduled_end_timestamp is None") and v is True for k, v in t.pc) \
                     and not any("isinstance" in str(k) and v is False for k, v in t.pc) and not any("tzinfo is not None" in str(k) and v is False for k, v in t.pc):
                 badw.append((f"a wait found {st} whose record carries its end time parks until {ts_.key() if ts_ is not None else '?'}", t))
             elif not any("scheduled_end_timestamp" in str(k) or "wait_details" in str(k) for k, _v in t.pc):
